@@ -19,8 +19,9 @@ def elem(rng, ty):
 def tdm_script(rng, with_params=False, with_loop=False):
     lines = ["name tdm_%d" % rng.randint(0, 9), "version 1.0"]
     if rng.random() < 0.6:
-        lines.append("target %s (shots=%d)" % (rng.choice(["TD2", "TD3", "X"]), rng.randint(1, 50)))
-    lines.append("type tdm (temporal_modes=%d%s)" % (rng.randint(1, 4), rng.choice(["", ", copies=%d" % rng.randint(1, 9)])))
+        # (options are plain values: a string spelt like a p-name stays a string there)
+        lines.append("target %s (shots=%d%s)" % (rng.choice(["TD2", "TD3", "X"]), rng.randint(1, 50), rng.choice(["", "", ', phase_label="p0"', ', gates=["p1", "BS", 3]'])))
+    lines.append("type tdm (temporal_modes=%d%s)" % (rng.randint(1, 4), rng.choice(["", ", copies=%d" % rng.randint(1, 9), ', sweep="p1"'])))
     lines.append("")
     npar = rng.randint(0, 4)
     names = []
@@ -156,6 +157,9 @@ def cases(rng, quick, gr):
     yield {"tag": "pname-scalar", "text": "name t\nversion 1.0\ntype tdm (temporal_modes=1)\nfloat array p0 =\n    1, 2\nfloat p1 = 0.5\nSgate(p0, p1) | 0\n"}
     yield {"tag": "not-tdm", "text": "name t\nversion 1.0\nfloat array p0 =\n    1.5, 2\nSgate(p0, p0[1]) | 0\n"}
     yield {"tag": "tdm-index", "text": "name t\nversion 1.0\ntype tdm (temporal_modes=1)\nfloat array p0 =\n    1.5, 2\nSgate(p0, p0[1]) | 0\n"}
+    # program types that merely resemble tdm (other case, longer names): p-named arrays are ordinary arrays there, passed by value
+    for ty in ["TDM", "Tdm", "tdM", "tdmx", "xtdm", "t_dm", "tdm2"]:
+        yield {"tag": "near-tdm-type", "text": "name t\nversion 1.0\ntype %s (temporal_modes=2)\nfloat array p0 =\n    0.1, 0.2\nint m = 3\nRgate(p0) | 0\nBSgate(theta=p0, phi=m, l=[p0, 1]) | [0, 1]\nfor int i in 0:2\n    Sgate(p0, i) | i\n" % ty}
     yield {"tag": "tdm-p0-param", "text": "name t\nversion 1.0\ntype tdm (temporal_modes=1)\nSgate({p0}, 1) | 0\n"}
 
 
